@@ -226,6 +226,7 @@ class Fanout(Sub):
                     vexec.release_all()
                     qpool.park = False
                     qpool.release_all()
+                    rig.release_query_slots()
                     await rig.settle()
                     mark_settled(t)
                     pending_feed = False
@@ -242,8 +243,14 @@ class Fanout(Sub):
                     if backend == "kv":
                         qpool.park = op[1]
                         sched_between = sched_between or (op[1] and pending_feed)
+                    elif op[1]:
+                        # SQL: every query slot is taken (long queries of other clients): stored queries wait
+                        await rig.hold_query_slots()
+                        labels.append("sql-query-slots-held")
+                    else:
+                        rig.release_query_slots()
                 elif op[0] == "qrelease":
-                    if qpool.release(op[1]):
+                    if qpool.release(op[1]) or rig.release_query_slots():
                         sched_between = sched_between or pending_feed
                     for _ in range(3):
                         await asyncio.sleep(0)
@@ -260,6 +267,7 @@ class Fanout(Sub):
             vexec.release_all()
             qpool.park = False
             qpool.release_all()
+            rig.release_query_slots()
             await rig.settle()
             mark_settled(T)
             snapshot(T)
